@@ -161,3 +161,27 @@ def itermut_ok(tasks, nulled):
             tasks.remove(task)
             break
     return tasks
+
+
+class class_memo_bad:
+    def __get__(self, obj, cls):
+        try:
+            return cls._names
+        except AttributeError:
+            names = tuple(f.name for f in fields(cls))
+            cls._names = names
+            return names
+
+
+class class_memo_ok:
+    def __get__(self, obj, cls):
+        names = cls.__dict__.get("_names")
+        if names is None:
+            names = tuple(f.name for f in fields(cls))
+            cls._names = names
+        return names
+
+    def __new__(cls):
+        if cls._instance is None:
+            cls._instance = super().__new__(cls)
+        return cls._instance
